@@ -5,9 +5,18 @@
 (* call), and what the public API shows afterwards -- liveness of both structs, entry count, a    *)
 (* read-only find of every key class -- must equal the specification's map.  Slots, hash codes,   *)
 (* sizes never appear here: the verdict is about the map the user sees.                           *)
+(* Extension: Eq (aws_hash_table_eq with its comparator), aws_hash_table_is_valid of every live   *)
+(* table and aws_hash_iter_is_valid of the user iterator after every call, allocator traffic of  *)
+(* put / create against the storage the table is known to have (`room`), aws_hash_combine and    *)
+(* the agreement of the three string hashes (Combine, XHash).  In mode string_own the dk / dv     *)
+(* lists are the adapter's aws_string objects released at the allocator during the call: the     *)
+(* table's destructor there is aws_hash_callback_string_destroy itself.                          *)
 EXTENDS HashMap, TraceCommon
 
-VARIABLES l
+CONSTANT InitSizePromise   \* TRUE: also hold aws_hash_table_init to "initial capacity for 'size' elements without resizing"
+
+VARIABLES l,
+          room     \* [Tabs -> [held, asked]]: the most entries the table has held since init / the size init was given
 Ev == TraceLog[l]
 
 D == SeqBag(Ev.dk)        \* destructor invocations during this call (keys, values), as bags
@@ -18,7 +27,8 @@ Observed(s) ==
     \A t \in Tabs :
         /\ (s.live[t] = 1) <=> live'[t]
         /\ IF live'[t]
-           THEN /\ s.n[t] = Cardinality({c \in Classes : m'[t][c] # Nil})
+           THEN /\ s.ok[t] = 1                                   \* aws_hash_table_is_valid
+                /\ s.n[t] = Cardinality({c \in Classes : m'[t][c] # Nil})
                 /\ \A c \in Classes :
                       IF m'[t][c] = Nil THEN s.fk[t][c + 1] = -1 /\ s.fv[t][c + 1] = -1
                       ELSE s.fk[t][c + 1] = KObj(c, m'[t][c].p) /\ s.fv[t][c + 1] = m'[t][c].v
@@ -34,12 +44,19 @@ TInit == /\ Ev.e = "Init" /\ Ev.rc = 0 /\ Quiet
          /\ Init(Ev.t, Ev.kfn = 1, Ev.vfn = 1)
          /\ Observed(Ev.s)
 
+(* acq = allocator acquisitions during the call: none when the table had no reason to grow *)
+Grew(t, created) ==
+    /\ NoGrowthNeeded(t, created, room[t].held) => Ev.acq = 0
+    /\ (InitSizePromise /\ NoGrowthNeeded(t, created, room[t].asked)) => Ev.acq = 0
+
 TPut == /\ Ev.e = "Put" /\ Ev.rc = 0
-        /\ \E created \in BOOLEAN : Flag(Ev.wc, created) /\ Put(Ev.t, Ev.c, Ev.p, Ev.v, created, D, V)
+        /\ \E created \in BOOLEAN : /\ Flag(Ev.wc, created) /\ Put(Ev.t, Ev.c, Ev.p, Ev.v, created, D, V)
+                                    /\ Grew(Ev.t, created)
         /\ Observed(Ev.s)
 
 TCreate == /\ Ev.e = "Create" /\ Ev.rc = 0 /\ Quiet
-           /\ \E created \in BOOLEAN : Flag(Ev.wc, created) /\ Create(Ev.t, Ev.c, Ev.p, created, Ev.ek, Ev.ev, Ev.setv)
+           /\ \E created \in BOOLEAN : /\ Flag(Ev.wc, created) /\ Create(Ev.t, Ev.c, Ev.p, created, Ev.ek, Ev.ev, Ev.setv)
+                                       /\ Grew(Ev.t, created)
            /\ Observed(Ev.s)
 
 TFind == /\ Ev.e = "Find" /\ Ev.rc = 0 /\ Quiet
@@ -64,9 +81,12 @@ TCleanUp == Ev.e = "CleanUp" /\ CleanUp(Ev.t, D, V) /\ Observed(Ev.s)
 TSwap == Ev.e = "Swap" /\ Quiet /\ Swap(Ev.a, Ev.b) /\ Observed(Ev.s)
 TMove == Ev.e = "Move" /\ Quiet /\ Move(Ev.to, Ev.from) /\ Observed(Ev.s)
 
-TIterBegin == Ev.e = "IterBegin" /\ Quiet /\ IterBegin(Ev.t, Ev.done = 1, Ev.ek, Ev.ev) /\ Observed(Ev.s)
-TIterNext == Ev.e = "IterNext" /\ Quiet /\ IterNext(Ev.done = 1, Ev.ek, Ev.ev) /\ Observed(Ev.s)
-TIterDelete == Ev.e = "IterDelete" /\ IterDelete(Ev.destroy = 1, D, V) /\ Observed(Ev.s)
+TEq == Ev.e = "Eq" /\ Quiet /\ Eq(Ev.a, Ev.b, Ev.kind, Ev.r = 1, Ev.cmp) /\ Observed(Ev.s)
+
+(* iv = aws_hash_iter_is_valid on the user's iterator after the call *)
+TIterBegin == Ev.e = "IterBegin" /\ Quiet /\ Ev.iv = 1 /\ IterBegin(Ev.t, Ev.done = 1, Ev.ek, Ev.ev) /\ Observed(Ev.s)
+TIterNext == Ev.e = "IterNext" /\ Quiet /\ Ev.iv = 1 /\ IterNext(Ev.done = 1, Ev.ek, Ev.ev) /\ Observed(Ev.s)
+TIterDelete == Ev.e = "IterDelete" /\ Ev.iv = 1 /\ IterDelete(Ev.destroy = 1, D, V) /\ Observed(Ev.s)
 
 TForEach == /\ Ev.e = "ForEach" /\ Ev.ncb = Len(Ev.vis)
             /\ LET vis == [i \in 1..Len(Ev.vis) |-> [k |-> Ev.vis[i][1], v |-> Ev.vis[i][2], f |-> Ev.vis[i][3]]] IN
@@ -94,11 +114,36 @@ THashEq == /\ Ev.e = "HashEq"
            /\ Ev.eq = 1 => Ev.same = 1
            /\ UNCHANGED hmvars
 
+(* aws_hash_combine is a function of its two arguments (nothing else is documented) *)
+TCombine == /\ Ev.e = "Combine"
+            /\ Ev.stable = 1
+            /\ Ev.rel = "copy" => Ev.same = 1
+            /\ UNCHANGED hmvars
+
+(* "Hash is same as used on the string bytes by aws_hash_c_string": the same bytes as C string,   *)
+(* aws_string and byte cursor hash equally                                                       *)
+TXHash == Ev.e = "XHash" /\ Ev.cs = 1 /\ Ev.cc = 1 /\ UNCHANGED hmvars
+
 TEnd == Ev.e = "End" /\ Ev.live = 0 /\ Ev.unk = 0 /\ UNCHANGED hmvars
+
+(* the storage a table has travels with it (swap, move), starts afresh at init and ends at clean_up *)
+NoRoom == [held |-> 0, asked |-> 0]
+Carried(t) ==
+    CASE Ev.e = "Swap" -> IF t = Ev.a THEN room[Ev.b] ELSE IF t = Ev.b THEN room[Ev.a] ELSE room[t]
+      [] Ev.e = "Move" -> IF t = Ev.to THEN room[Ev.from] ELSE IF t = Ev.from THEN NoRoom ELSE room[t]
+      [] Ev.e = "Init" -> IF t = Ev.t THEN [held |-> 0, asked |-> Ev.isz] ELSE room[t]
+      [] Ev.e = "Reset" -> NoRoom
+      [] OTHER -> room[t]
+RoomStep == room' = [t \in Tabs |->
+                IF ~live'[t] THEN NoRoom
+                ELSE LET n == Cardinality({c \in Classes : m'[t][c] # Nil}) IN
+                     [Carried(t) EXCEPT !.held = IF n > @ THEN n ELSE @]]
 
 TNext == /\ l <= TraceLen /\ l' = l + 1
          /\ (TReset \/ TInit \/ TPut \/ TCreate \/ TFind \/ TRemove \/ TRemoveElement \/ TClear \/ TCleanUp \/ TSwap
-             \/ TMove \/ TIterBegin \/ TIterNext \/ TIterDelete \/ TForEach \/ TSkip \/ THashEq \/ TEnd)
-TInitial == l = 1 /\ HMInit
-TSpec == TInitial /\ [][TNext]_<<hmvars, l>>
+             \/ TMove \/ TEq \/ TIterBegin \/ TIterNext \/ TIterDelete \/ TForEach \/ TSkip \/ THashEq \/ TCombine
+             \/ TXHash \/ TEnd)
+         /\ RoomStep
+TInitial == l = 1 /\ HMInit /\ room = [t \in Tabs |-> NoRoom]
+TSpec == TInitial /\ [][TNext]_<<hmvars, l, room>>
 =============================================================================
